@@ -314,6 +314,9 @@ def runModel (hd : Header) (calls : List (PCall × Twin)) : List String :=
   go ⟨init Unit [] 1, [], [], []⟩ calls
 
 def handleModel (line : String) : String :=
+  -- liveness probes: the model (`ffi_param_live`: a non-null value_ptr is dereferenced when the gate is evaluated) says
+  -- that the C interface and the reference rebuilt with the current values as direct parameters agree
+  if line.startsWith "live " then "same" else
   match parseCase line with
   | none => "bad-request"
   | some (hd, calls) => " ; ".intercalate (runModel hd calls)
@@ -513,6 +516,8 @@ def runSpec (hd : Header) (calls : List (PCall × Twin)) (impls : List Impl) : S
 def handleSpec (line : String) : String :=
   match line.splitOn "\t" with
   | [req, ans] =>
+    if req.startsWith "live " then
+      (if ans.trimAscii.toString = "same" then "ok" else s!"fail ffi-param-not-live {ans.take 160}") else
     match parseCase req with
     | none => "fail bad-request"
     | some (hd, calls) => runSpec hd calls ((ans.trimAscii.toString.splitOn " ; ").map parseImpl)
